@@ -14,7 +14,11 @@ RULE = ("histories of parse requests on ONE DefaultArgsParser.  Pool of requests
         "format: base levels, command names, groups) and C02's (a single-fault mutation, a token soup); every line strict and "
         "lenient.  All histories of length 1-2 over the pool, with format objects built per request and with one object per format "
         "(quick; thorough adds length 3 over the 41 original requests), seeded random to length 6, a third of them through two+ "
-        "CommandConfig objects sharing one parser via set_args_parser / Command.parse.  Each result compared with a fresh parser's; "
+        "CommandConfig objects sharing one parser via set_args_parser / Command.parse, half of those with a leniency setting per "
+        "configuration and a third of their requests NOT SAYING a mode (Command.parse(raw): the configuration decides, whatever "
+        "earlier requests named).  Formats 5 and 6 are twins of format 1 in everything but the DEFAULTS.  Each result compared with "
+        "a fresh parser's AND with what a process answers that has imported the library and never parsed anything (one forked "
+        "child per distinct request; a history that differs anywhere is run again on its own in such a child and judged there); "
         "argv list, RawArgs tokens/option_tokens/script name/text and the format's listings (own and base chain, aliases, command "
         "options) snapshotted before/after; every Args returned is read again at the end of the history.  Next to that the state-"
         "taking model of Props/C05.v (parse_obj: the maps reset at entry are a parameter) is compared with the real body of parse() "
@@ -22,6 +26,9 @@ RULE = ("histories of parse requests on ONE DefaultArgsParser.  Pool of requests
         "requests on it + random to length 6): model and code must leak alike.  Non-trivial = >= 2 "
         "requests of which >= 1 sets an option; distinct by history")
 TRUSTED = ["'does not alter the list / raw arguments / format it was handed' is about Python aliasing: carried by snapshot comparison (testing)",
+           "the reference 'what a fresh parser gives' is taken in a forked child of a process that only imported clikit (os.fork in the "
+           "worker): state outside the parser object - module, class, format / option objects - shows as "
+           "'result-differs-from-a-process-that-never-parsed-anything'",
            "harness/translate_c05.py: the model's parse starts from empty scratch maps because the source of DefaultArgsParser.parse "
            "assigns fresh OrderedDicts to self._arguments and self._options before anything else (AST check, re-run by every C05 check)"]
 ASSUMPTIONS = ["exhaustive to length 2 (quick) / 3 over the 41 original requests (thorough), not the 6 of the quantifier; lengths 3..6 are sampled"]
@@ -31,7 +38,16 @@ EXTRA = ["zz"]
 # anything a parser remembers by NAME about an earlier format shows (seeded change C05-d)
 FORMATS = [G.SMALL_FORMATS[21], G.SMALL_FORMATS[37], G.SMALL_FORMATS[31],
            [[G.opt("verbose", "v", G.REQ_V), G.opt("opt", "o", G.NO_VALUE), G.arg("a1", G.A_OPT | G.A_MULTI)]],
-           [[G.cname("server", []), G.cname("add", ["srv"]), G.opt("verbose", "v", G.NO_VALUE), G.opt("may", "m", G.REQ_V), G.arg("am", G.A_REQ)]]]
+           [[G.cname("server", []), G.cname("add", ["srv"]), G.opt("verbose", "v", G.NO_VALUE), G.opt("may", "m", G.REQ_V), G.arg("am", G.A_REQ)]],
+           # formats 5 and 6 are twins of 1 and of each other in everything but the DEFAULTS (names, short names, flags, order
+           # all equal): whatever a parser - or the module it lives in - keeps about "a format that lists this" shows (audit
+           # mutant C05-4: a module-level memo of the flat format keyed by names and flags)
+           [[G.opt("verbose", "v", G.NO_VALUE), G.opt("num", "n", G.REQ_V | G.O_INT, 3), G.opt("may", "m", G.OPT_V, "other"),
+             G.opt("mul", "l", G.MULTI_V, ["m0"]), G.opt("quiet", None, G.NO_VALUE), G.arg("a1", G.A_REQ), G.arg("a2", G.A_OPT, "D2"),
+             G.arg("am", G.A_MULTI, ["r0"])]],
+           [[G.opt("verbose", "v", G.NO_VALUE), G.opt("num", "n", G.REQ_V | G.O_INT), G.opt("may", "m", G.OPT_V),
+             G.opt("mul", "l", G.MULTI_V), G.opt("quiet", None, G.NO_VALUE), G.arg("a1", G.A_REQ), G.arg("a2", G.A_OPT),
+             G.arg("am", G.A_MULTI)]]]
 LINES = [
     [0, ["x"]], [0, ["--opt", "v", "x"]], [0, ["-v", "x"]], [0, ["x", "y"]], [0, ["--zz"]], [0, []],
     [1, ["x", "--num=5", "--mul", "a", "--mul", "b"]], [1, ["x"]], [1, ["x", "--num=abc"]], [1, ["x", "-v", "--may"]],
@@ -41,6 +57,7 @@ LINES = [
     [0, ["--", "--opt"]], [1, ["--", "x", "y", "--num"]],
     [0, ["x y"]], [0, ["--opt", "v x"]], [0, ["--opt", "v", "x"]],       # different argv lists that join to the same text (C05-g)
     [3, ["-v", "x", "y"]], [3, ["--opt", "x", "y"]], [3, ["x"]], [4, ["server", "srv", "--may", "1", "p"]], [4, ["srv", "p"]], [4, ["--may"]],
+    [5, ["x", "--may"]], [5, ["x"]], [6, ["x", "-v", "--may"]], [6, ["x"]],           # the default-only twins of format 1 (whose lines 6..11 stand above)
 ]
 POOL = [[fi, 0, toks] for fi, toks in LINES] + [[fi, 1, toks] for fi, toks in LINES[:8] + LINES[16:18]]
 
@@ -110,13 +127,23 @@ def via_ok(lv):
     return len(lv) == 1 and all(e["k"] in ("o", "a") for e in lv[0])
 
 
-def mk_via_case(reqs):
+def mk_via_case(reqs, rng=None):
     """the same history through Command.parse of command configurations sharing one parser: every format gets the command
-    name of its configuration in front"""
+    name of its configuration in front.  With rng: every configuration has its own leniency setting ("cfgl": 0 strict,
+    1 lenient) and about a third of the requests do not say a mode (2): Command.parse(raw) - the configuration decides,
+    whatever mode earlier requests named"""
     c = mk_case(reqs, 1)
     c["fmts"] = [[[G.cname("c%d" % i, [])] + lv[0]] for i, lv in enumerate(c["fmts"])]
     c["via"] = 1
+    if rng is not None:
+        c["cfgl"] = [rng.randint(0, 1) for _ in c["fmts"]]
+        c["reqs"] = [[fi, 2 if rng.random() < 0.35 else ln, toks] for fi, ln, toks in c["reqs"]]
     return c
+
+
+def mode_of(c, r):
+    """the leniency a request is parsed with: what it says, else what its command's configuration says"""
+    return c["cfgl"][r[0]] if r[1] == 2 else r[1]
 
 
 def gen(rng, tier, info):
@@ -141,12 +168,12 @@ def gen(rng, tier, info):
     n_via = 0
     for a in eligible[:40]:
         for b in eligible[:40]:
-            cases.append(mk_via_case([a, b]))
+            cases.append(mk_via_case([a, b], rng if n_via % 2 else None))
             n_via += 1
     for i in range(nrand):
         k = rng.randint(3, 6)
         if i % 3 == 2:
-            cases.append(mk_via_case([rng.choice(eligible) for _ in range(k)]))
+            cases.append(mk_via_case([rng.choice(eligible) for _ in range(k)], rng if i % 2 else None))
             n_via += 1
         else:
             cases.append(mk_case([rng.choice(pool) for _ in range(k)], rng.randrange(3)))
@@ -190,7 +217,7 @@ def case_fmts(c):
 
 
 def wire(c):
-    w = [[G.wire_levels(f) for f in case_fmts(c)], [[r[0], r[1], [S(t) for t in r[2]]] for r in c["reqs"]], [S(x) for x in EXTRA]]
+    w = [[G.wire_levels(f) for f in case_fmts(c)], [[r[0], mode_of(c, r), [S(t) for t in r[2]]] for r in c["reqs"]], [S(x) for x in EXTRA]]
     return w + [c["resets"]] if c.get("resets") else w
 
 
@@ -200,7 +227,7 @@ def describe(c):
     how = ("one parser whose parse() does not reset %s: " % {1: "_options", 2: "_arguments", 3: "_arguments/_options"}[c["resets"]]) if c.get("resets") else \
           "commands sharing one parser (set_args_parser): " if c.get("via") else \
           {0: "one parser: ", 1: "one parser, one format object per format: ", 2: "one parser, every object kept: "}[c.get("share", 0)]
-    return how + "; ".join("fmt#%d %s %r" % (r[0], "lenient" if r[1] else "strict", r[2]) for r in c["reqs"]) + \
+    return how + "; ".join("fmt#%d %s %r" % (r[0], ["strict", "lenient", "mode not said (configuration: %s)" % ("lenient" if c.get("cfgl") and c["cfgl"][r[0]] else "strict")][r[1]], r[2]) for r in c["reqs"]) + \
         " where " + "; ".join("fmt#%d = %s" % (i, G.fmt_shape(fm[i])) for i in used)
 
 
@@ -226,14 +253,16 @@ def _build_format(levels):
     return fmt
 
 
-def _via_commands(fmts, shared):
+def _via_commands(fmts, shared, cfgl=None):
     """one CommandConfig per format, all using the same parser object; the format of a command = its name + its elements"""
     from clikit.api.config.command_config import CommandConfig
     from clikit.api.command.command import Command
     cmds = []
-    for lv in fmts:
+    for i, lv in enumerate(fmts):
         cfg = CommandConfig(lv[0][0]["name"])
         cfg.set_args_parser(shared)
+        if cfgl is not None:
+            (cfg.enable_lenient_args_parsing if cfgl[i] else cfg.disable_lenient_args_parsing)()
         for e in lv[0][1:]:
             d = e["default"]
             d = list(d) if isinstance(d, list) else d
@@ -260,6 +289,102 @@ def source_resets_at_entry():
         except Exception:
             _SOURCE_FACT.append(0)
     return _SOURCE_FACT[0]
+
+
+# ---------------------------------------------------------------- the reference: a process that has never parsed anything
+# "What a fresh parser gives" is computed, for every request, in a process forked from a server that was itself forked from
+# this worker BEFORE the worker parsed anything and that only imports the library: whatever the library keeps anywhere - on
+# the parser, its class, its module, the Args / format classes - a request evaluated there meets the state of a just-imported
+# library.  (A new DefaultArgsParser() in the worker shares every module-level and class-level object with the parser under
+# test: an audit mutant that memoised the flat format in a module dict gave 'reused == fresh' on 37 000 histories.)
+# One child per request; answers are memoised per (format description, mode, tokens) - a function of the request by construction.
+# The HISTORY of a case runs in the worker first; when anything in it differs from the reference (or from a new parser, or a
+# snapshot changed) it is run AGAIN in such a child and that run is what is reported: there it meets the state of a just-
+# imported library plus what the history itself did, so a history reported as failing fails again when it is replayed alone
+# (in the worker a history also meets whatever the cases before it left in the library's modules).  A fork per case for
+# every case costs 10 ms a case; on a tree without such state no history is run twice.
+_REF = {}
+
+
+def _ref_answer(req):
+    from clikit.args import DefaultArgsParser
+    if req[0] == "hist":
+        return _run_history(req[1])
+    levels, lenient, toks = req[1]
+    return G.parse_once(DefaultArgsParser(), _build_format(levels), toks, bool(lenient), EXTRA)
+
+
+def _ref_server(rfd, wfd):
+    import os, signal
+    signal.signal(signal.SIGALRM, signal.SIG_DFL)
+    import clikit.args, clikit.api.args.format, clikit.api.command.command, clikit.api.config.command_config      # import only
+    fin = os.fdopen(rfd, "r")
+    for line in fin:
+        rid, req = json.loads(line)
+        r2, w2 = os.pipe()
+        pid = os.fork()
+        if pid == 0:
+            try:
+                ans = [rid, _ref_answer(req)]
+            except BaseException as e:
+                ans = [rid, ["REF-EXC", type(e).__name__, str(e)[:200]]]
+            try:
+                os.write(w2, (json.dumps(ans) + "\n").encode())
+            finally:
+                os._exit(0)
+        os.close(w2)
+        chunks = []
+        while True:
+            b = os.read(r2, 65536)
+            if not b:
+                break
+            chunks.append(b)
+        os.close(r2)
+        os.waitpid(pid, 0)
+        data = b"".join(chunks) or (json.dumps([rid, ["REF-DIED"]]) + "\n").encode()
+        os.write(wfd, data)
+    os._exit(0)
+
+
+def pristine(levels, lenient, toks):
+    """the observation of parse(tokens, format, mode) in a process that has never parsed anything"""
+    key = json.dumps([levels, int(bool(lenient)), list(toks)], sort_keys=True)
+    if key in _REF.setdefault("memo", {}):
+        return _REF["memo"][key]
+    ans = _ref_call(["req", [levels, int(bool(lenient)), list(toks)]])
+    _REF["memo"][key] = ans
+    return ans
+
+
+def _ref_call(req):
+    import os
+    if "to" not in _REF:
+        r1, w1 = os.pipe()
+        r2, w2 = os.pipe()
+        pid = os.fork()
+        if pid == 0:
+            os.close(w1)
+            os.close(r2)
+            try:
+                _ref_server(r1, w2)
+            finally:
+                os._exit(0)
+        os.close(r1)
+        os.close(w2)
+        _REF.update({"to": w1, "from": os.fdopen(r2, "r"), "n": 0})
+    _REF["n"] += 1
+    rid = _REF["n"]
+    os.write(_REF["to"], (json.dumps([rid, req]) + "\n").encode())
+    while True:
+        line = _REF["from"].readline()
+        if not line:
+            raise RuntimeError("reference process closed")
+        got, ans = json.loads(line)
+        if got == rid:            # (an answer to a request whose case timed out meanwhile is skipped)
+            break
+    if isinstance(ans, list) and ans and ans[0] in ("REF-EXC", "REF-DIED"):
+        raise RuntimeError("reference process: %r" % (ans,))
+    return ans
 
 
 _UNRESET = {}
@@ -290,6 +415,17 @@ def unreset_class(r):
 
 
 def run_impl(c):
+    # the reference answers come first: the server is forked before this worker has parsed anything
+    if c.get("resets"):
+        return _run_history(c) + [source_resets_at_entry(), []]
+    pristine_out = [pristine(case_fmts(c)[r[0]], mode_of(c, r), r[2]) for r in c["reqs"]]
+    h = _run_history(c)
+    if h[1] != pristine_out or h[1] != h[2] or not h[3] or not h[4]:
+        h = _ref_call(["hist", c])            # judged on what it does on its own
+    return h + [source_resets_at_entry(), pristine_out]
+
+
+def _run_history(c):
     from clikit.args import DefaultArgsParser, ArgvArgs
     from hutil import err
     shared = unreset_class(c["resets"])() if c.get("resets") else DefaultArgsParser()
@@ -298,8 +434,9 @@ def run_impl(c):
     out, fresh_out, untouched, reread = [], [], 1, 1
     kept = {}
     held = []          # with kept objects: (format, its listing, argv, copy, raw, tokens, option tokens, text, Args or None, first observation)
-    cmds = _via_commands(fmts, shared) if c.get("via") else None
-    for fi, lenient, toks in c["reqs"]:
+    cmds = _via_commands(fmts, shared, c.get("cfgl")) if c.get("via") else None
+    for fi, said, toks in c["reqs"]:
+        lenient = mode_of(c, [fi, said])
         # a format object built for this request only (and dropped afterwards) - or, with "share", one object per format
         # for the whole history
         if cmds is not None:
@@ -317,7 +454,10 @@ def run_impl(c):
         tok_before, opt_before, text_before = list(raw.tokens), list(raw.option_tokens), (raw.script_name, raw.to_string())
         a, obs = None, None
         try:
-            a = cmds[fi].parse(raw, bool(lenient)) if cmds is not None else shared.parse(raw, fmt, bool(lenient))
+            if cmds is not None:
+                a = cmds[fi].parse(raw) if said == 2 else cmds[fi].parse(raw, bool(lenient))
+            else:
+                a = shared.parse(raw, fmt, bool(lenient))
             obs = G.observe_args(fmt, a, EXTRA)
             out.append([0, obs])
         except Exception as e:
@@ -336,7 +476,7 @@ def run_impl(c):
             untouched = 0
         if a is not None and G.observe_args(fmt, a, EXTRA) != obs:
             reread = 0
-    return [0, out, fresh_out, untouched, reread, source_resets_at_entry()]
+    return [0, out, fresh_out, untouched, reread]
 
 
 def canon_impl(c, o):
@@ -358,6 +498,11 @@ def oracle(c, o):
     for i, (a, b) in enumerate(zip(o[1], o[2])):
         if a != b:
             return "reused-parser-differs-from-fresh"
+    for a, b in zip(o[1], o[6] if len(o) > 6 else []):
+        if a != b:
+            # equal to a new parser object in this process, but not to what a process that never parsed anything answers:
+            # the state sits outside the parser object (module, class, format / option objects)
+            return "result-differs-from-a-process-that-never-parsed-anything"
     if len(o) > 5 and not o[5]:
         # nothing wrong seen on this history, but the fact the model's theorems rest on no longer holds for the source
         return "source-of-parse-no-longer-resets-its-scratch-first-or-keeps-other-state"
